@@ -1,6 +1,6 @@
 #!/bin/sh
 # try_seed.sh <seed-id> [property-id]: apply a kept seeded change to /repo, run the check, undo it
-id="$1"; prop="${2:-$1}"
+id="$1"; prop="${2:-${1%%-*}}"
 cd /repo && git apply /verif/seeded/$id/patch.diff || { echo "patch does not apply"; exit 9; }
 cd /verif && VERIF_OUT=/tmp/seedout/$id ./check $prop > /tmp/seedout_$id.log 2>&1; rc=$?
 git -C /repo checkout -- .
